@@ -36,7 +36,7 @@ from mapproxy.image.message import attribution_image, message_image
 from mapproxy.layer import BlankImage, MapQuery, InfoQuery, LegendQuery, MapError, LimitedLayer
 from mapproxy.layer import MapBBOXError, merge_layer_extents, merge_layer_res_ranges
 from mapproxy.util import async_
-from mapproxy.util.py import cached_property, reraise
+from mapproxy.util.py import cached_property, reraise, error_text_without_file_names
 from mapproxy.util.coverage import load_limited_to
 from mapproxy.util.ext.odict import odict
 from mapproxy.template import template_loader, bunch, recursive_bunch
@@ -156,7 +156,8 @@ class WMSServer(Server):
             result.georef = GeoReference(bbox=orig_query.bbox, srs=orig_query.srs)
             result_buf = result.as_buffer(img_opts)
         except IOError as ex:
-            raise RequestError('error while processing image file: %s' % ex,
+            # the message ends up in the exception report: without the name of the file
+            raise RequestError('error while processing image file: %s' % error_text_without_file_names(ex),
                                request=map_request)
 
         resp = Response(result_buf, content_type=img_opts.format.mime_type)
